@@ -48,7 +48,7 @@ def compute_rbf_kernel(x_i: np.ndarray, y_j: np.ndarray, sigma: float) -> np.nda
     Returns:
         np.ndarray: The gaussian kernel matrix.
     """
-    exponent = np.abs(x_i[:, None] - y_j[None, :]) ** 2
+    exponent = (np.abs(x_i[:, None] - y_j[None, :]) ** 2).astype(float)
     try:
         gamma = 1.0 / (2 * sigma)
     except ZeroDivisionError as error:
@@ -75,7 +75,7 @@ def compute_multi_rbf_kernel(
     Returns:
         np.ndarray: The gaussian kernel matrix.
     """
-    exponent = np.abs(x_i[:, None] - y_j[None, :]) ** 2
+    exponent = (np.abs(x_i[:, None] - y_j[None, :]) ** 2).astype(float)
     kernel_matrix = np.zeros(exponent.shape)
     for sigma in sigmas:
         try:
@@ -123,8 +123,8 @@ def compute_mmd(
         )
 
     basis = np.asarray(
-        [int("".join(map(str, item)), 2) for item in all_keys]
-    )  # Digit Tuple to int
+        [int("".join(map(str, item)), 2) for item in all_keys], dtype=object
+    )  # Digit Tuple to (arbitrary precision) int
     if not hasattr(sigma, "__len__"):
         kernel_matrix = compute_rbf_kernel(basis, basis, sigma)
     else:
